@@ -245,6 +245,7 @@ func (b Block) status() (class, reason string) {
 	if n*w < supplied {
 		return Unspecified, "declared-fewer-than-supplied"
 	}
+	unspec := ""
 	for _, e := range b.Entries {
 		if e.Lo.T != TString {
 			return Reject, "source-not-a-string"
@@ -256,13 +257,26 @@ func (b Block) status() (class, reason string) {
 			if len(e.Lo.S) != len(e.Hi.S) {
 				return Reject, "bounds-of-unequal-length"
 			}
-			if b.Kind.IsRangeMapping() && bytes.Compare(e.Lo.S, e.Hi.S) > 0 {
-				return Reject, "low-above-high"
+			if bytes.Compare(e.Lo.S, e.Hi.S) > 0 {
+				if b.Kind.IsRangeMapping() {
+					return Reject, "low-above-high"
+				}
+				unspec = "reversed-codespace-range" // the property names only range mappings
 			}
 		}
 		if b.Kind.HasDst() && !DstAllowed(b.Kind, e.Dst.T) {
 			return Reject, "wrong-destination-type"
 		}
+		if e.Dst.T == TArray {
+			for _, x := range e.Dst.A {
+				if x.T != TString && x.T != TName {
+					unspec = "array-element-type"
+				}
+			}
+		}
+	}
+	if unspec != "" {
+		return Unspecified, unspec
 	}
 	return Valid, ""
 }
@@ -344,8 +358,8 @@ func canon(k Kind, es []Entry) {
 
 // Mismatch describes the first difference found by Compare.
 type Mismatch struct {
-	Table  string // table name, or "usecmap"
-	What   string // count-low | count-high | order | content
+	Table  string // table name, "usecmap" or "entry-count"
+	What   string // order | source | high-bound | destination; for entry-count the tables with too many (+) / too few (-) entries
 	Detail string
 }
 
@@ -356,15 +370,26 @@ func Compare(want, got Tables) *Mismatch {
 	if want.UseCMap != got.UseCMap {
 		return &Mismatch{"usecmap", "content", fmt.Sprintf("expected usecmap %q, got %q", want.UseCMap, got.UseCMap)}
 	}
+	// entry counts of all tables first, so that an entry put into the wrong
+	// table is named as such
+	var signs, details []string
 	for k := Kind(0); k < NumKinds; k++ {
 		w, g := want.T[k], got.T[k]
-		if len(g) != len(w) {
-			what := "count-low"
-			if len(g) > len(w) {
-				what = "count-high"
-			}
-			return &Mismatch{k.String(), what, fmt.Sprintf("table %s: expected %d entries %s, got %d entries %s", k, len(w), Dump(w), len(g), Dump(g))}
+		if len(g) == len(w) {
+			continue
 		}
+		sign := "-"
+		if len(g) > len(w) {
+			sign = "+"
+		}
+		signs = append(signs, k.String()+sign)
+		details = append(details, fmt.Sprintf("table %s: expected %d entries %s, got %d entries %s", k, len(w), Dump(w), len(g), Dump(g)))
+	}
+	if len(signs) > 0 {
+		return &Mismatch{"entry-count", strings.Join(signs, ","), strings.Join(details, "; ")}
+	}
+	for k := Kind(0); k < NumKinds; k++ {
+		w, g := want.T[k], got.T[k]
 		for i := 1; i < len(g); i++ {
 			if Less(k, g[i], g[i-1]) {
 				return &Mismatch{k.String(), "order", fmt.Sprintf("table %s not sorted by source code at index %d: %s", k, i, Dump(g))}
@@ -374,11 +399,34 @@ func Compare(want, got Tables) *Mismatch {
 		canon(k, gc)
 		for i := range w {
 			if w[i].Key() != gc[i].Key() {
-				return &Mismatch{k.String(), "content", fmt.Sprintf("table %s: expected %s, got %s", k, Dump(w), Dump(g))}
+				// name the first component in which the tables differ as multisets
+				what := "destination"
+				if !sameMultiset(w, gc, func(e Entry) string { return e.Lo.Key() }) {
+					what = "source"
+				} else if !sameMultiset(w, gc, func(e Entry) string { return e.Lo.Key() + " " + e.Hi.Key() }) {
+					what = "high-bound"
+				}
+				return &Mismatch{k.String(), what, fmt.Sprintf("table %s: expected %s, got %s", k, Dump(w), Dump(g))}
 			}
 		}
 	}
 	return nil
+}
+
+func sameMultiset(a, b []Entry, key func(Entry) string) bool {
+	count := map[string]int{}
+	for _, e := range a {
+		count[key(e)]++
+	}
+	for _, e := range b {
+		count[key(e)]--
+	}
+	for _, n := range count {
+		if n != 0 {
+			return false
+		}
+	}
+	return true
 }
 
 // Dump renders a table.
